@@ -265,6 +265,7 @@ class Stats:
         self.split_samples = []
         self.violations = []  # list of dicts
         self.inconclusive = []
+        self.inconclusive_samples = []
         self.extra = {}
 
     def merge(self, o):
@@ -279,6 +280,7 @@ class Stats:
         self.split_samples.extend(o.split_samples)
         self.violations.extend(o.violations)
         self.inconclusive.extend(o.inconclusive)
+        self.inconclusive_samples.extend(o.inconclusive_samples)
         for k, v in o.extra.items():
             if isinstance(v, (int, float)):
                 self.extra[k] = self.extra.get(k, 0) + v
@@ -383,6 +385,13 @@ def _worker(check, tier, seed, n_cases, idx, known, q):
                 return
         try:
             evaluate(check, case, ctx, stats, known, counting=not state["failed"])
+        except Inconclusive as e:
+            # One undecided case (a timeout on a loaded machine, a helper tool that failed) is recorded and
+            # skipped; the run as a whole is inconclusive only if such cases are frequent (see run_check).
+            stats.extra["inconclusive_cases"] = stats.extra.get("inconclusive_cases", 0) + 1
+            if len(stats.inconclusive_samples) < 3:
+                stats.inconclusive_samples.append(str(e)[:600])
+            return
         except Violation as v:
             if not state["failed"]:
                 state["shrink_deadline"] = time.time() + float(os.environ.get("VERIF_SHRINK_S", "90"))
@@ -566,6 +575,14 @@ def run_check(check, tier, seed, replay_path=None, cases_override=None):
         "technique": check.technique,
     }
     coverage.update(stats.extra)
+    n_inc = int(stats.extra.get("inconclusive_cases", 0))
+    if n_inc:
+        coverage["inconclusive_case_samples"] = stats.inconclusive_samples[:3]
+        # Undecided cases are tolerated while they are rare: more than 3 and more than 5 % of the decided ones
+        # (or nothing decided at all) makes the whole run inconclusive.
+        if n_inc > max(3, 0.05 * stats.evaluations) or stats.evaluations == 0:
+            stats.inconclusive.append(f"{n_inc} undecided case(s) against {stats.evaluations} decided: "
+                                      f"{stats.inconclusive_samples[0] if stats.inconclusive_samples else ''}")
     if stats.inconclusive:
         coverage["inconclusive"] = stats.inconclusive[:5]
     evidence = {
